@@ -253,6 +253,10 @@ pub async fn copy_bidi(ctx: ContextRef, params: &IoParams) -> Result<(), Error> 
     let frames = ctx_lock.take_frames();
     let client_stat = ctx_lock.props().client_stat.clone();
     let server_stat = ctx_lock.props().server_stat.clone();
+    // the idle period is the tunnel's: the statistics were stamped when the connection was accepted, and a
+    // handshake or an upstream that took longer than the period would make the tunnel idle from the start
+    client_stat.touch();
+    server_stat.touch();
     #[cfg(feature = "metrics")]
     let client_label = ctx_lock.props().listener.clone();
     #[cfg(feature = "metrics")]
